@@ -259,7 +259,20 @@ func (t *TSA) RoundTrip(req *http.Request) (*http.Response, error) {
 		}
 		psd.Content.SignerInfos = other.Content.SignerInfos
 	}
-	resp := pkcs9.TimeStampResp{Status: pkcs9.PKIStatusInfo{Status: pkcs9.StatusGranted}, TimeStampToken: *psd}
+	status := pkcs9.StatusGranted
+	switch out.Kind {
+	case "granted-with-mods":
+		status = pkcs9.StatusGrantedWithMods
+	case "status-revocation-warning":
+		// not a grant (RFC 3161 2.4.2: only 0 and 1 are), although a flawless
+		// token comes with it
+		status = 4
+	case "status-revocation-notification":
+		status = 5
+	case "status-unknown":
+		status = 17
+	}
+	resp := pkcs9.TimeStampResp{Status: pkcs9.PKIStatusInfo{Status: status}, TimeStampToken: *psd}
 	der, err := asn1.Marshal(resp)
 	if err != nil {
 		panic(err)
@@ -268,7 +281,7 @@ func (t *TSA) RoundTrip(req *http.Request) (*http.Response, error) {
 		der = append(der, 0x05, 0x00)
 	}
 	entry.SigValue = psd.Content.SignerInfos[0].EncryptedDigest
-	entry.Acceptable = out.Kind == "valid" || out.Kind == "noeku"
+	entry.Acceptable = out.Kind == "valid" || out.Kind == "noeku" || out.Kind == "granted-with-mods"
 	record()
 	return tsaResp(req, 200, "application/timestamp-reply", der), nil
 }
